@@ -1,6 +1,6 @@
 """C14 - exporting a dictionary to EDS/DCF and importing it again loses nothing; the destination kind
 (file name with .eds/.dcf suffix, open text stream, standard output) does not change the document."""
-import contextlib, io, os, shutil, tempfile
+import contextlib, copy, io, os, shutil, tempfile
 from vlib.obs import S, Err, guarded, gz, gzlist, gopt, gbool, glist
 from ref import eds_writer as W
 from ref import odgen
@@ -87,20 +87,25 @@ def mask(text):
 
 
 def export_everywhere(od, doc_type):
+    """the document written to every kind of destination: stream, stdout, file names (type from the suffix; explicit
+    type with a neutral, a missing and a CONTRADICTING suffix)"""
     import canopen
     buf = io.StringIO()
     canopen.export_od(od, buf, doc_type)
     so = io.StringIO()
     with contextlib.redirect_stdout(so):
         canopen.export_od(od, None, doc_type)
+    texts = [buf.getvalue(), so.getvalue()]
+    other = "eds" if doc_type == "dcf" else "dcf"
     d = tempfile.mkdtemp(prefix="c14-")
     try:
-        path = os.path.join(d, "out." + doc_type)
-        canopen.export_od(od, path)                    # document type taken from the suffix
-        with open(path) as f: ft = f.read()
+        for name, explicit in (("out." + doc_type, None), ("out." + doc_type, doc_type), ("out.txt", doc_type),
+                               ("out", doc_type), ("backup." + other, doc_type)):
+            path = os.path.join(d, name)
+            canopen.export_od(od, path, explicit)
+            with open(path) as f: texts.append(f.read())
     finally:
         shutil.rmtree(d, ignore_errors=True)
-    texts = [buf.getvalue(), so.getvalue(), ft]
     return texts[0], [mask(t) for t in texts]
 
 
@@ -112,14 +117,101 @@ def sorted_doc(text):
 def export_reimport(od, doc_type, nid):
     import canopen
     text, masked = export_everywhere(od, doc_type)
-    same = masked[0] == masked[1] == masked[2]
+    same = all(m == masked[0] for m in masked)
     f = io.StringIO(text); f.name = "again." + doc_type
     od2 = guarded(lambda: dump_od(canopen.import_od(f, nid)))
     return HObs([same, sorted_doc(text), od2])
 
 
+def var_of(od, index, sub):
+    o = od.indices[index]
+    return o if sub is None else o.subindices[sub]
+
+
+def apply_mods_desc(desc, mods):
+    """the description of the dictionary after the modifications"""
+    d = copy.deepcopy(desc)
+    for m in mods:
+        if "od" in m:
+            d[{"node_id": "file_node_id", "bitrate": "baudrate_kbit", "comments": "comments"}[m["od"]]] = m["value"]
+            continue
+        o = next(x for x in d["objects"] if x["index"] == m["index"])
+        v = o["var"] if m["sub"] is None else next(x for x in o["members"] if x["sub"] == m["sub"])
+        if m["value"] is None: v.pop(m["field"], None)
+        else: v[m["field"]] = m["value"]
+    return d
+
+
+def apply_mods_live(od, mods):
+    """the same modifications made on the live dictionary through its public attributes"""
+    for m in mods:
+        if "od" in m:
+            if m["od"] == "node_id": od.node_id = m["value"]
+            elif m["od"] == "bitrate": od.bitrate = m["value"] * 1000 if m["value"] else None
+            else: od.comments = "\n".join(m["value"])
+            continue
+        v = var_of(od, m["index"], m["sub"])
+        f, val = m["field"], m["value"]
+        if f == "default":
+            v.default = py_value(val)
+            if v.data_type == W.BOOLEAN and val is not None: v.default = bool(v.default)
+        elif f == "pvalue": v.value = py_value(val)
+        elif f == "pdo": v.pdo_mappable = bool(val)
+        elif f == "descr": v.description = val or ""
+        elif f == "unit": v.unit = val or ""
+        elif f == "low": v.min = val
+        elif f == "high": v.max = val
+        else: raise ValueError(f)
+
+
+DEST_OD = None
+def dest_od():
+    from canopen.objectdictionary import ObjectDictionary, ODVariable
+    od = ObjectDictionary(); od.node_id = 5; od.bitrate = 250000
+    v = ODVariable("v", 0x2000); v.data_type = 0x06; v.default = 1; v.value = 2
+    od.add_object(v)
+    return od
+
+
+def impl_dest(c):
+    """which kind of document does export_od write for this destination / doc_type?  True = DCF, False = EDS,
+    None = nothing"""
+    import canopen
+    def f():
+        od = dest_od()
+        if c["name"] is None:
+            buf = io.StringIO()
+            canopen.export_od(od, buf, c["doc_type"])
+            text = buf.getvalue()
+        else:
+            d = tempfile.mkdtemp(prefix="c14-")
+            try:
+                path = os.path.join(d, c["name"])
+                canopen.export_od(od, path, c["doc_type"])
+                with open(path) as fp: text = fp.read()
+            finally:
+                shutil.rmtree(d, ignore_errors=True)
+        if text == "": return None
+        secs = dict(parse_tokens(text))
+        return "DeviceComissioning" in secs and any(k == "ParameterValue" for k, _ in secs["2000"])
+    return guarded(f)
+
+
 def impl(c):
     k = c["kind"]
+    if k == "dest":
+        return impl_dest(c)
+    if k == "hist":
+        def f():
+            import canopen
+            od = build_od(c["desc"])
+            buf = io.StringIO()
+            canopen.export_od(od, buf, c["doc_type1"])
+            state1 = dump_od(od)                          # an export leaves the dictionary as it was
+            apply_mods_live(od, c["mods"])
+            second = export_reimport(od, c["doc_type"], c.get("nid"))
+            return HObs([state1, sorted_doc(buf.getvalue()), second.full], depth=4)
+        return guarded(f)
     if k == "exp":
         return guarded(lambda: export_reimport(build_od(c["desc"]), c["doc_type"], c.get("nid")))
     if k == "reexp":
@@ -147,9 +239,25 @@ def decompact(desc):
 
 
 def oracle(c, o):
+    if c["kind"] == "dest":
+        t, name = c["doc_type"], c["name"]
+        want = (t == "dcf") if t in ("eds", "dcf") else (name.endswith(".dcf") if t is None and name is not None and
+                                                         (name.endswith(".dcf") or name.endswith(".eds")) else None)
+        if want is not None and o is not want:
+            return ("destination_changes_document",
+                    f"export_od(od, {name!r}, {t!r}) wrote {'a DCF' if o is True else 'an EDS' if o is False else repr(o)}, "
+                    f"{'a DCF' if want else 'an EDS'} was asked for")
+        return None
     if isinstance(o, Err):
         return ("export_raises", f"export/import of a well-formed dictionary raised {o!r}")
-    same, doc, dump = full_obs(o)
+    if c["kind"] == "hist":
+        state1, doc1, second = full_obs(o)
+        if isinstance(second, Err):
+            return ("export_raises", f"second export / import raised {second!r}")
+        same, doc, dump = second
+        c = dict(c, kind="exp", desc=apply_mods_desc(c["desc"], c["mods"]))
+    else:
+        same, doc, dump = full_obs(o)
     if not same:
         return ("destination_changes_document", "the documents written to a stream, to stdout and to a file name differ")
     if isinstance(dump, Err):
@@ -218,13 +326,18 @@ def god(desc):
 
 
 def coq_case(c):
+    if c["kind"] == "dest":
+        return f"CDest {gsopt(c['name'])} {gsopt(c['doc_type'])}"
     dcf = gbool(c["doc_type"] == "dcf")
+    if c["kind"] == "hist":
+        return (f"CHistory {god(c['desc'])} {gbool(c['doc_type1'] == 'dcf')} {god(apply_mods_desc(c['desc'], c['mods']))} "
+                f"{dcf} {gopt(c.get('nid'))}")
     if c["kind"] == "exp":
         return f"CExport {god(c['desc'])} {dcf} {gopt(c.get('nid'))}"
     return f"CReexport {gdoc(W.tokens(c['desc']))} {gopt(c.get('nid'))} {dcf} {gopt(c.get('nid2'))}"
 
 
-def nontrivial(c): return len(c["desc"]["objects"]) >= 1
+def nontrivial(c): return c["kind"] == "dest" or len(c["desc"]["objects"]) >= 1
 
 
 # ------------------------------------------------------------------ generators
@@ -246,11 +359,43 @@ def gen_cases(rng, tier):
         doc_type = rng.choice(["eds", "dcf"])
         nid2 = rng.choice([eff, None]) if (doc_type == "dcf" and desc.get("commissioning")) else eff
         cases.append(dict(kind="reexp", desc=desc, style=rng.randrange(3), nid=nid, doc_type=doc_type, nid2=nid2))
+    # histories: export, change the dictionary, export again (both document types), import
+    g = odgen.Gen(rng, "built")
+    for i in range({"quick": 40, "thorough": 500, "search": 80}[tier]):
+        desc = g.desc(rng.choice(["small", "normal"]))
+        vs = []
+        for o in desc["objects"]:
+            if o["kind"] == "var": vs.append((o["index"], None, o["var"]))
+            else: vs += [(o["index"], m["sub"], m) for m in o["members"][1:]]
+        mods = []
+        for index, sub, v in rng.sample(vs, min(len(vs), rng.randrange(1, 5))):
+            f = rng.choice(["default", "default", "pvalue", "pvalue", "pdo", "descr", "unit"])
+            val = (g.dval(v["dt"], False) if rng.random() < 0.85 else None) if f in ("default", "pvalue") else \
+                (not v.get("pdo")) if f == "pdo" else rng.choice(["changed", "2nd text", None])
+            if f in ("default", "pvalue") and v["dt"] in (W.TIME_OF_DAY, W.TIME_DIFF) and f == "pvalue": continue
+            mods.append(dict(index=index, sub=sub, field=f, value=val))
+        if rng.random() < 0.3: mods.append(dict(od="node_id", value=rng.choice([None, 1, 9, 127])))
+        if rng.random() < 0.3: mods.append(dict(od="bitrate", value=rng.choice([None, 125, 500])))
+        if rng.random() < 0.3: mods.append(dict(od="comments", value=[rng.choice(["new comment", "x = y"])]))
+        d2 = apply_mods_desc(desc, mods)
+        doc_type = rng.choice(["eds", "dcf"])
+        nid = d2.get("file_node_id") if doc_type == "eds" else rng.choice([None, d2.get("file_node_id")])
+        cases.append(dict(kind="hist", desc=desc, doc_type1=rng.choice(["eds", "dcf"]), mods=mods, doc_type=doc_type, nid=nid))
+    # destination / document type
+    if tier != "search" or True:
+        for name in (None, "a.eds", "a.dcf", "a.txt", "a", "a.dcf.eds", "a.eds.dcf", "a.EDS", "a.DCF", "dcf", ".dcf", "x.dcf.bak"):
+            for t in (None, "eds", "dcf", "", "epf", "EDS"):
+                cases.append(dict(kind="dest", name=name, doc_type=t))
     rng.shuffle(cases)
     return cases
 
 
 def shrink(c):
+    if c["kind"] == "dest": return
+    if c["kind"] == "hist":
+        for i in range(len(c["mods"])):
+            if len(c["mods"]) > 1: yield dict(c, mods=c["mods"][:i] + c["mods"][i + 1:])
+        return
     d = c["desc"]
     objs = d["objects"]
     for i in range(len(objs)):
